@@ -145,6 +145,11 @@ fn blocked_after() -> std::time::Duration {
     std::time::Duration::from_millis(*D.get_or_init(|| std::env::var("ZKSIM_BLOCK_MS").ok().and_then(|v| v.parse().ok()).unwrap_or(8000)))
 }
 
+fn step_timeout_s() -> u64 {
+    static D: OnceLock<u64> = OnceLock::new();
+    *D.get_or_init(|| std::env::var("ZKSIM_STEP_TIMEOUT_S").ok().and_then(|v| v.parse().ok()).unwrap_or(1500))
+}
+
 static NODE_INIT: OnceLock<fn()> = OnceLock::new();
 /// Called once by the engine: `f` runs at the start of every node thread (it installs
 /// `on_tick` into the library's guarded hook).
@@ -552,11 +557,20 @@ impl Cx {
             // call holds (only code that holds a lock across a tick can do that; the pinned
             // library has none): the parked call is resumed so that both can finish, as any
             // real scheduler would eventually do.  Never taken on a library without such locks.
+            let waiting_since = std::time::Instant::now();
             let reply = loop {
                 match self.nodes[n].reply_rx.recv_timeout(blocked_after()) {
                     Ok(r) => break r,
                     Err(std::sync::mpsc::RecvTimeoutError::Timeout) => {
-                        let Some(p) = (0..self.nodes.len()).find(|&i| i != n && self.nodes[i].parked.is_some()) else { continue };
+                        let Some(p) = (0..self.nodes.len()).find(|&i| i != n && self.nodes[i].parked.is_some()) else {
+                            // a call that never returns and reports no work: the run cannot be
+                            // decided (harness error, exit 2), better than hanging the batch
+                            if waiting_since.elapsed().as_secs() > step_timeout_s() {
+                                eprintln!("zksim: {who} {label} has not returned after {} s and nothing is parked (run {} of the batch; harness error)", step_timeout_s(), self.run_index);
+                                std::process::exit(2);
+                            }
+                            continue;
+                        };
                         let pw = self.node_name(p);
                         self.log(format!("{who} {label} has not returned: taken to be blocked on a lock held by parked {pw}; resuming {pw}"));
                         self.count("sched.blocked_on_lock_held_by_parked_call");
